@@ -2080,7 +2080,7 @@ def gen_c11(rng, tier):
                 out.append({"v": v, "notes": None})
             else:
                 seen, ns = set(), []
-                for _ in range(rng.randrange(1, 4)):
+                for _ in range(rng.choice([1, 1, 2, 3, 3, 4, 5, 6])):
                     sp = spec()
                     pp = score.pitch_of(sp[0], sp[1])
                     if pp not in seen:
